@@ -56,6 +56,8 @@ def cases(spec, ctx):
         yield {"work": "synth", "part": "d", "i": 1, "force": {"method": "bilateral", "shape": [101, 104], "ss": 1.0}}
         yield {"work": "synth", "part": "d", "i": 2, "force": {"method": "bilateral", "shape": [9, 30], "ss": 1.4}}   # width 5
         yield {"work": "synth", "part": "d", "i": 20, "force": {"method": "bilateral", "shape": [125, 240], "ss": 2.0, "layout": "large-area", "area": [112, 115]}}
+        yield {"work": "synth", "part": "d", "i": 22, "force": {"method": "median_for_intervals", "shape": [104, 33], "fs": 3}}
+        yield {"work": "synth", "part": "d", "i": 23, "force": {"method": "median_for_intervals", "shape": [31, 207], "fs": 5}}
         yield {"work": "synth", "part": "d", "i": 21, "force": {"method": "median", "shape": [215, 130], "fs": 5, "layout": "large-area", "area": [204, 101]}}
         yield {"work": "synth", "part": "d", "i": 3, "force": {"method": "bilateral", "shape": [12, 9], "ss": 1.0}}   # even width 4
         yield {"work": "synth", "part": "d", "i": 4, "force": {"method": "bilateral", "shape": [6, 7], "ss": 6.0}}    # width > image
